@@ -634,6 +634,47 @@ def _bs_check(ctx):
                                    "(sizes 0,1,7,13,40,64,300,4096; sha2-256, identity, blake2b-256 multihashes) addressed through CIDv0/v1 x raw/dag-pb/dag-cbor variants, 10 % of the calls with a cancelled context; "
                                    "oracle = the contract stated by the property (a map keyed by multihash); non-trivial = >= 6 calls with a successful read and a delete"}
 
+def _close_check(ctx):
+    """C17: closedrive scenarios on the real store (goroutine / descriptor / directory census after Close, failed opens, Close while a cycle is parked)."""
+    prop, tier, wd, rng = ctx["prop"], ctx["tier"], ctx["wd"], ctx["rng"]
+    C.go_build(["closedrive"])
+    seeds = [ctx["seed"] * 100 + i for i in range(2 if tier == "quick" else 40)]
+    from concurrent.futures import ThreadPoolExecutor
+    def one(sd):
+        p = subprocess.run([os.path.join(C.BIN, "closedrive"), str(sd)], env=dict(os.environ, GOLOG_LOG_LEVEL="fatal"), stdout=subprocess.PIPE, stderr=subprocess.STDOUT, text=True, timeout=900)
+        return sd, p.stdout
+    with ThreadPoolExecutor(4) as ex:
+        outs = list(ex.map(one, seeds))
+    viol, n, npass, skipped = [], 0, 0, 0
+    names = set()
+    for sd, out in outs:
+        for line in out.split("\n"):
+            m = re.match(r"(\S+) (PASS|FAIL|SKIP) ?(.*)", line)
+            if not m:
+                continue
+            n += 1
+            names.add(m.group(1))
+            if m.group(2) == "PASS":
+                npass += 1
+            elif m.group(2) == "SKIP":
+                skipped += 1
+            elif len(viol) < 3:
+                rp = C.save_replay(prop, "close-%s-%d.txt" % (m.group(1), sd), "C17 fails on the implementation: scenario %s (seed %d): %s\nreplay: cd /verif && build/bin/closedrive %d %s\n" % (m.group(1), sd, m.group(3), sd, m.group(1)))
+                viol.append(("closedrive %s: %s" % (m.group(1), m.group(3)), rp, True))
+    return viol, {"evaluations": n, "distinct_nontrivial": len(names), "scenarios_passed": npass, "scenarios_skipped": skipped,
+                  "samples": [{"scenarios": sorted(names)}],
+                  "scenario_rule": "open/Start/150 random calls/Close x4 with 10 ms GC and 4 ms sync intervals; Close without Start; 5 kinds of failing open x3; Close issued while the real background "
+                                   "primary collector is parked at gc.reap.beforeUpdateIndex / gc.afterFreeList and the index collector at index.gc.beforeReap (Close must block until released); Close while a "
+                                   "rate-limited writer waits; after each: no goroutine of the module alive (stack dump), no descriptor into the store directory (/proc/self/fd), directory unchanged for 3 GC intervals"}
+
+CHECKS["C17"] = Spec(
+    prop_file="C17.v",
+    weights=None,
+    witnesses=["F17-close-vs-relocation"],
+    tools=["witness", "closedrive"],
+    rule="see scenario_rule",
+    extra=_close_check,
+)
 CHECKS["C15"] = Spec(
     prop_file="C15.v",
     weights=None,
